@@ -99,6 +99,8 @@ def cases(tier):
     for n in (1, 2, 3, 4):
         add(f'auto:n={n}', [('b', n)], 2, mask=n % 4)
         add(f'auto-qr:n={n}', [('b', n)], 3, mask=n % 8, micro=False, error='Q', boost_error=False)
+        add(f'auto-L:n={n}', [('b', n)], 2, mask=n % 4, error='L')
+        add(f'auto-M:n={n}', [('b', n)], 2, mask=n % 4, error='M', boost_error=False)
     # B: each shape at byte capacity / capacity-1 with automatic mode detection
     shapes = [(v, lv) for v in T.MICRO for lv in T.levels_of(v)] + [(v, lv) for v in range(1, 6) for lv in T.LEVELS] + [(7, 'M'), (10, 'M')]
     if tier == 'thorough':
@@ -114,6 +116,14 @@ def cases(tier):
             if mode != 'byte' or v >= 3:
                 kw['mode'] = mode          # M1/M2 cannot hold bytes; big symbols: one path instead of four
             add(f'cap:{T.version_name(v)}-{lv}:n={n}', [('b', n)], 5 + T.total_codewords(v) ** 1.3 / 10, **kw)
+    # B2: one byte more than the ISO byte capacity of every QR shape, automatic version: the next version must be taken and the
+    # tail must survive (concrete prefix, symbolic tail: the Reed-Solomon work stays concrete)
+    for v in range(1, 40):
+        for lv in T.LEVELS:
+            if tier == 'quick' and (v * 7 + T.LEVEL_ORDER[lv]) % 4:
+                continue
+            cap = byte_capacity(v, lv, 'byte')
+            add(f'over:{v}-{lv}:n={cap + 1}', [('pb', cap + 1)], 6 + v, error=lv, micro=False, mode='byte', mask=v % 8, boost_error=False)
     # C: explicit modes at their own capacity
     vs = list(T.MICRO) + [1, 2] + ([3, 4, 5, 6] if tier == 'thorough' else [])
     for v in vs:
@@ -180,6 +190,12 @@ def build_content(spec):
     for i, (kind, arg) in enumerate(spec):
         if kind == 'b':
             sb = SBytes.fresh(f'c{i}_', arg)
+            objs.append(sb)
+            parts.append({'kind': 'bytes', 'sym': sb})
+        elif kind == 'pb':
+            # concrete prefix, three symbolic bytes at the end
+            k = min(3, arg)
+            sb = SBytes([(0x41 + (j * 7) % 26) for j in range(arg - k)] + list(SBytes.fresh(f'c{i}_', k).d))
             objs.append(sb)
             parts.append({'kind': 'bytes', 'sym': sb})
         elif kind == 't':
